@@ -16,19 +16,44 @@ Fixpoint min_r {A} (le : A -> A -> bool) (l : list A) : option A :=
   | x :: t => match min_r le t with None => Some x | Some m => Some (if le x m then x else m) end
   end.
 
+(** the rightmost maximum of a list w.r.t. a total preorder given as [le] *)
+Fixpoint max_r {A} (le : A -> A -> bool) (l : list A) : option A :=
+  match l with
+  | [] => None
+  | x :: t => match max_r le t with None => Some x | Some m => Some (if le x m then m else x) end
+  end.
+
 (** semantics given to the fused implementation primitives.  They have no documentation; the
-    definitions state what the names say and what the implementation does on an empty array
-    (FirstMinIndex / FirstMaxIndex give 0 there, where `first rise` fails). *)
-Definition p_first_index (le : list elem -> list elem -> bool) (a : arr) : res arr :=
+    definitions state what the names say.  [fixed = false] is the code before fix commit 2d75a21,
+    where FirstMinIndex / FirstMaxIndex (and the Last ones) gave 0 on an empty array, where
+    `first rise` fails; [fixed = true] is the current code: "Cannot get min index of an empty array". *)
+Definition p_first_index (fixed : bool) (le : list elem -> list elem -> bool) (a : arr) : res arr :=
   if negb (sortable a) then Unspec else
   match ash a with
   | [] => Unspec
   | n :: s =>
       let rs := chunk (prodn s) n (adata a) in
       match min_r (fun x y => le (snd x) (snd y)) (combine (seq 0 (length rs)) rs) with
-      | None => Ok (num 0)
+      | None => if fixed then Err else Ok (num 0)
       | Some p => Ok (num (Z.of_nat (fst p))) end
   end.
+(** LastMaxIndex (le = row_le) / LastMinIndex (le = row_ge): index of the rightmost extremal row *)
+Definition p_last_index (le : list elem -> list elem -> bool) (a : arr) : res arr :=
+  if negb (sortable a) then Unspec else
+  match ash a with
+  | [] => Unspec
+  | n :: s =>
+      let rs := chunk (prodn s) n (adata a) in
+      match max_r (fun x y => le (snd x) (snd y)) (combine (seq 0 (length rs)) rs) with
+      | None => Err
+      | Some p => Ok (num (Z.of_nat (fst p))) end
+  end.
+(** the code before fix commit 1f3e8d8 (algorithm/monadic/mod.rs, last_max_index): an array
+    marked as sorted ascending gave 0; before 2d75a21 an empty array gave 0 as well *)
+Definition p_last_max_index_pre (marked_up : bool) (a : arr) : res arr :=
+  match ash a with
+  | O :: _ => Ok (num 0)
+  | _ => if marked_up then Ok (num 0) else p_last_index row_le a end.
 Definition p_count_unique (a : arr) : res arr :=
   match ash a with
   | [] => Unspec
@@ -57,8 +82,10 @@ Definition prim_sem (id : N) (st : list arr) : res (list arr) :=
       | 41%N => step None ODedup st
       | 43%N => step None OSort st
       | 47%N => step None OTranspose st
-      | 102%N => on_top (p_first_index row_le) st
-      | 104%N => on_top (p_first_index row_ge) st
+      | 102%N => on_top (p_first_index true row_le) st
+      | 103%N => on_top (p_last_index row_ge) st
+      | 104%N => on_top (p_first_index true row_ge) st
+      | 105%N => on_top (p_last_index row_le) st
       | 112%N => on_top p_count_unique st
       | _ => Unspec end
   end.
@@ -309,15 +336,15 @@ Lemma min_r_none {A} (le : A -> A -> bool) l : min_r le l = None -> l = [].
 Proof. destruct l; cbn; auto. destruct (min_r le l); discriminate. Qed.
 
 (** first of the rise (fall) of an array = index of its leftmost minimal (maximal) row *)
-Lemma first_of_grade : forall (le : list elem -> list elem -> bool) (rs : list (list elem)) n v,
+Lemma first_of_grade : forall (e : res arr) (le : list elem -> list elem -> bool) (rs : list (list elem)) n v,
   length rs = n ->
   p_first None (Arr TNum [n]
      (map nat_elem (map fst (isort (fun x y => le (snd x) (snd y)) (combine (seq 0 (length rs)) rs))))) = Ok v ->
   match min_r (fun x y => le (snd x) (snd y)) (combine (seq 0 (length rs)) rs) with
-  | None => Ok (num 0)
+  | None => e
   | Some p => Ok (num (Z.of_nat (fst p))) end = Ok v.
 Proof.
-  intros le rs n v L H. unfold p_first in H. cbn [ash aty adata] in H.
+  intros e le rs n v L H. unfold p_first in H. cbn [ash aty adata] in H.
   destruct n as [|n]; try discriminate.
   change (prodn []) with 1%nat in H. rewrite map_map in H. rewrite firstn1_map in H.
   rewrite hd_isort in H.
@@ -326,24 +353,24 @@ Proof.
   - apply min_r_none in E. destruct rs; cbn in *; discriminate.
 Qed.
 
-Theorem rise_first_is_first_min : forall a u v,
-  p_rise a = Ok u -> p_first None u = Ok v -> p_first_index row_le a = Ok v.
+Theorem rise_first_is_first_min : forall fixed a u v,
+  p_rise a = Ok u -> p_first None u = Ok v -> p_first_index fixed row_le a = Ok v.
 Proof.
-  intros a u v R F. unfold p_rise in R. unfold p_first_index.
+  intros fixed a u v R F. unfold p_rise in R. unfold p_first_index.
   destruct (negb (sortable a)); try discriminate.
   destruct (ash a) as [|n s]; try discriminate.
   inversion R; subst u; clear R. unfold rise_list in F.
-  apply first_of_grade in F; [exact F|apply chunk_length].
+  eapply first_of_grade in F; [exact F|apply chunk_length].
 Qed.
 
-Theorem fall_first_is_first_max : forall a u v,
-  p_fall a = Ok u -> p_first None u = Ok v -> p_first_index row_ge a = Ok v.
+Theorem fall_first_is_first_max : forall fixed a u v,
+  p_fall a = Ok u -> p_first None u = Ok v -> p_first_index fixed row_ge a = Ok v.
 Proof.
-  intros a u v R F. unfold p_fall in R. unfold p_first_index.
+  intros fixed a u v R F. unfold p_fall in R. unfold p_first_index.
   destruct (negb (sortable a)); try discriminate.
   destruct (ash a) as [|n s]; try discriminate.
   inversion R; subst u; clear R. unfold fall_list in F.
-  apply first_of_grade in F; [exact F|apply chunk_length].
+  eapply first_of_grade in F; [exact F|apply chunk_length].
 Qed.
 
 (** rule 3: (Rise, First) -> FirstMinIndex *)
@@ -358,7 +385,7 @@ Proof.
   destruct (negb (wfb u && forallb wfb r)); try discriminate.
   try (rewrite (transposeN_small 31) in H by (vm_compute; reflexivity)); cbn in H.
   destruct (p_first None u) as [v| |] eqn:E2; cbn in H; try discriminate.
-  cbn. rewrite (rise_first_is_first_min a u v E E2). exact H.
+  cbn. rewrite (rise_first_is_first_min true a u v E E2). exact H.
 Qed.
 
 (** rule 5: (Fall, First) -> FirstMaxIndex *)
@@ -373,7 +400,222 @@ Proof.
   destruct (negb (wfb u && forallb wfb r)); try discriminate.
   try (rewrite (transposeN_small 31) in H by (vm_compute; reflexivity)); cbn in H.
   destruct (p_first None u) as [v| |] eqn:E2; cbn in H; try discriminate.
-  cbn. rewrite (fall_first_is_first_max a u v E E2). exact H.
+  cbn. rewrite (fall_first_is_first_max true a u v E E2). exact H.
+Qed.
+
+(* ------------------------------------------------------------------ last of rise / fall *)
+
+(** the order of rows is transitive *)
+Lemma elem_cmp_eq_l : forall x y z, elem_cmp x y = Eq -> elem_cmp x z = elem_cmp y z.
+Proof.
+  intros x y z; destruct x as [a|a|ta sa da], y as [b|b|tb sb db], z as [c|c|tc sc dc]; cbn; intros H; try discriminate; try reflexivity.
+  - apply Z.compare_eq in H. subst. reflexivity.
+  - apply N.compare_eq in H. subst. reflexivity.
+Qed.
+Lemma elem_cmp_eq_r : forall x y z, elem_cmp y z = Eq -> elem_cmp x y = elem_cmp x z.
+Proof.
+  intros x y z H. rewrite (elem_cmp_antisym y x), (elem_cmp_antisym z x). f_equal.
+  symmetry. apply elem_cmp_eq_l. rewrite elem_cmp_antisym, H. reflexivity.
+Qed.
+Lemma elem_cmp_lt_trans : forall x y z, elem_cmp x y = Lt -> elem_cmp y z = Lt -> elem_cmp x z = Lt.
+Proof.
+  intros x y z; destruct x as [a|a|ta sa da], y as [b|b|tb sb db], z as [c|c|tc sc dc]; cbn; intros H1 H2; try discriminate; try reflexivity.
+  - rewrite Z.compare_lt_iff in *. lia.
+  - rewrite N.compare_lt_iff in *. lia.
+Qed.
+Lemma row_cmp_eq_l : forall a b c, row_cmp a b = Eq -> row_cmp a c = row_cmp b c.
+Proof.
+  induction a as [|x a IH]; destruct b as [|y b], c as [|z c]; cbn; intros H; try discriminate; auto.
+  destruct (elem_cmp x y) eqn:E; try discriminate.
+  rewrite (elem_cmp_eq_l x y z E). destruct (elem_cmp y z); auto.
+Qed.
+Lemma row_cmp_eq_r : forall a b c, row_cmp b c = Eq -> row_cmp a b = row_cmp a c.
+Proof.
+  intros a b c H. rewrite (row_cmp_antisym b a), (row_cmp_antisym c a). f_equal.
+  symmetry. apply row_cmp_eq_l. rewrite row_cmp_antisym, H. reflexivity.
+Qed.
+Lemma row_cmp_lt_trans : forall a b c, row_cmp a b = Lt -> row_cmp b c = Lt -> row_cmp a c = Lt.
+Proof.
+  induction a as [|x a IH]; destruct b as [|y b], c as [|z c]; cbn; intros H1 H2; try discriminate; auto.
+  destruct (elem_cmp x y) eqn:E1; try discriminate; destruct (elem_cmp y z) eqn:E2; try discriminate.
+  - rewrite (elem_cmp_eq_l x y z E1), E2. eauto.
+  - rewrite (elem_cmp_eq_l x y z E1), E2. reflexivity.
+  - rewrite <- (elem_cmp_eq_r x y z E2), E1. reflexivity.
+  - rewrite (elem_cmp_lt_trans x y z E1 E2). reflexivity.
+Qed.
+Lemma row_le_trans : forall a b c, row_le a b = true -> row_le b c = true -> row_le a c = true.
+Proof.
+  unfold row_le. intros a b c H1 H2.
+  destruct (row_cmp a b) eqn:E1; try discriminate.
+  - rewrite (row_cmp_eq_l a b c E1). exact H2.
+  - destruct (row_cmp b c) eqn:E2; try discriminate.
+    + rewrite <- (row_cmp_eq_r a b c E2), E1. reflexivity.
+    + rewrite (row_cmp_lt_trans a b c E1 E2). reflexivity.
+Qed.
+Lemma row_ge_le : forall a b, row_ge a b = row_le b a.
+Proof. intros. unfold row_ge, row_le. rewrite (row_cmp_antisym a b). destruct (row_cmp a b); reflexivity. Qed.
+Lemma row_ge_trans : forall a b c, row_ge a b = true -> row_ge b c = true -> row_ge a c = true.
+Proof. intros a b c. rewrite !row_ge_le. intros H1 H2. eapply row_le_trans; eauto. Qed.
+Lemma row_ge_total : forall l l', row_ge l l' = true \/ row_ge l' l = true.
+Proof. intros. rewrite !row_ge_le. destruct (row_le_total l l'); auto. Qed.
+
+(** the last element of a list *)
+Fixpoint lst {A} (l : list A) : option A :=
+  match l with [] => None | x :: t => match lst t with None => Some x | Some m => Some m end end.
+Lemma lst_none {A} (l : list A) : lst l = None -> l = [].
+Proof. destruct l; cbn; auto. destruct (lst l); discriminate. Qed.
+Lemma lst_map {A B} (f : A -> B) (l : list A) : lst (map f l) = option_map f (lst l).
+Proof. induction l; cbn; auto. rewrite IHl. destruct (lst l); reflexivity. Qed.
+Lemma skipn_lst {A} : forall (l : list A) n, length l = S n ->
+  skipn n l = match lst l with Some m => [m] | None => [] end.
+Proof.
+  induction l as [|x t IH]; intros n H; [discriminate|].
+  destruct n as [|n].
+  - destruct t; [reflexivity|discriminate].
+  - cbn [skipn]. cbn in H. rewrite (IH n) by lia. cbn [lst].
+    destruct (lst t) eqn:E; [reflexivity|]. apply lst_none in E. subst t. discriminate.
+Qed.
+
+Section LastSorted.
+  Context {A : Type} (le : A -> A -> bool).
+  Hypothesis le_total : forall x y, le x y = true \/ le y x = true.
+  Hypothesis le_trans : forall x y z, le x y = true -> le y z = true -> le x z = true.
+
+  Definition lmax (l : list A) : Prop := forall m, lst l = Some m -> forall y, In y l -> le y m = true.
+
+  Lemma lmax_tail : forall y s, lmax (y :: s) -> lmax s.
+  Proof.
+    intros y s H m Hm z Hz. apply (H m); [cbn; rewrite Hm; reflexivity|right; exact Hz].
+  Qed.
+
+  Lemma lst_insert : forall x l, lmax l ->
+    lst (insert le x l) = Some (match lst l with None => x | Some m => if le x m then m else x end).
+  Proof.
+    intros x l. induction l as [|y s IH]; intros M; [reflexivity|].
+    cbn [insert]. destruct (le x y) eqn:E.
+    - change (lst (x :: y :: s)) with (match lst (y :: s) with None => Some x | Some m => Some m end).
+      destruct (lst (y :: s)) as [m0|] eqn:L; [|apply lst_none in L; discriminate].
+      assert (Hy : le y m0 = true) by (apply (M m0 L); left; reflexivity).
+      rewrite (le_trans x y m0 E Hy). reflexivity.
+    - change (lst (y :: insert le x s)) with (match lst (insert le x s) with None => Some y | Some m => Some m end).
+      rewrite (IH (lmax_tail _ _ M)). cbn [lst].
+      destruct (lst s) as [m|]; [reflexivity|]. rewrite E. reflexivity.
+  Qed.
+
+  Lemma lmax_insert : forall x l, lmax l -> lmax (insert le x l).
+  Proof.
+    intros x l M m' Hm' y Hy.
+    rewrite (lst_insert x l M) in Hm'. inversion Hm'; subst m'; clear Hm'.
+    assert (Hy' : y = x \/ In y l).
+    { pose proof (Permutation.Permutation_in y (insert_perm le x l) Hy) as P. destruct P; auto. }
+    assert (Rx : le x x = true) by (destruct (le_total x x); auto).
+    destruct (lst l) as [m|] eqn:L.
+    - destruct (le x m) eqn:E.
+      + destruct Hy' as [->|Hy']; [exact E|exact (M m L y Hy')].
+      + destruct Hy' as [->|Hy']; [exact Rx|].
+        apply (le_trans y m x); [exact (M m L y Hy')|].
+        destruct (le_total x m); [congruence|assumption].
+    - apply lst_none in L. subst l. destruct Hy' as [->|[]]. exact Rx.
+  Qed.
+
+  Lemma lst_isort : forall l, lst (isort le l) = max_r le l /\ lmax (isort le l).
+  Proof.
+    induction l as [|x t [IH1 IH2]]; cbn [isort max_r].
+    - split; [reflexivity|]. intros m H; discriminate.
+    - split; [|apply lmax_insert; exact IH2].
+      rewrite (lst_insert x _ IH2), IH1. destruct (max_r le t); reflexivity.
+  Qed.
+End LastSorted.
+
+Lemma max_r_none {A} (le : A -> A -> bool) l : max_r le l = None -> l = [].
+Proof. destruct l; cbn; auto. destruct (max_r le l); discriminate. Qed.
+
+(** last of the rise (fall) of an array = index of its rightmost maximal (minimal) row *)
+Lemma last_of_grade : forall (le : list elem -> list elem -> bool),
+  (forall x y, le x y = true \/ le y x = true) ->
+  (forall x y z, le x y = true -> le y z = true -> le x z = true) ->
+  forall (rs : list (list elem)) n,
+  length rs = n ->
+  p_last None (Arr TNum [n]
+     (map nat_elem (map fst (isort (fun x y => le (snd x) (snd y)) (combine (seq 0 (length rs)) rs))))) =
+  match max_r (fun x y => le (snd x) (snd y)) (combine (seq 0 (length rs)) rs) with
+  | None => Err
+  | Some p => Ok (num (Z.of_nat (fst p))) end.
+Proof.
+  intros le Tot Tr rs n L. unfold p_last. cbn [ash aty adata].
+  set (le' := fun x y : nat * list elem => le (snd x) (snd y)).
+  set (l := combine (seq 0 (length rs)) rs).
+  assert (Ll : length l = n) by (unfold l; rewrite combine_length, seq_length, L; lia).
+  destruct n as [|n].
+  - destruct l; [reflexivity|discriminate].
+  - change (prodn []) with 1%nat. rewrite Nat.mul_1_r, map_map.
+    assert (Ls : length (map (fun x => nat_elem (fst x)) (isort le' l)) = S n).
+    { rewrite map_length. rewrite (Permutation.Permutation_length (isort_perm le' l)). exact Ll. }
+    rewrite (skipn_lst _ n Ls), lst_map.
+    destruct (lst_isort le' (fun x y => Tot (snd x) (snd y)) (fun x y z => Tr (snd x) (snd y) (snd z)) l) as [E _].
+    rewrite E. destruct (max_r le' l) as [p|] eqn:M; [reflexivity|].
+    apply max_r_none in M. rewrite M in Ll. discriminate.
+Qed.
+
+(** the unfused and the fused forms agree, failure included, wherever rise / fall is defined *)
+Theorem rise_last_equiv : forall a u, p_rise a = Ok u -> p_last_index row_le a = p_last None u.
+Proof.
+  intros a u R. unfold p_rise in R. unfold p_last_index.
+  destruct (negb (sortable a)); try discriminate.
+  destruct (ash a) as [|n s]; try discriminate.
+  inversion R; subst u; clear R. unfold rise_list.
+  symmetry. apply (last_of_grade row_le row_le_total row_le_trans). apply chunk_length.
+Qed.
+Theorem fall_last_equiv : forall a u, p_fall a = Ok u -> p_last_index row_ge a = p_last None u.
+Proof.
+  intros a u R. unfold p_fall in R. unfold p_last_index.
+  destruct (negb (sortable a)); try discriminate.
+  destruct (ash a) as [|n s]; try discriminate.
+  inversion R; subst u; clear R. unfold fall_list.
+  symmetry. apply (last_of_grade row_ge row_ge_total row_ge_trans). apply chunk_length.
+Qed.
+Theorem rise_first_equiv : forall a u, p_rise a = Ok u -> p_first_index true row_le a = p_first None u.
+Proof.
+  intros a u R. destruct (p_first None u) as [v| |] eqn:F.
+  - apply (rise_first_is_first_min true a u v R F).
+  - unfold p_rise in R. unfold p_first_index.
+    destruct (negb (sortable a)); try discriminate.
+    destruct (ash a) as [|n s]; try discriminate.
+    inversion R; subst u; clear R. unfold p_first in F. cbn [ash] in F.
+    destruct n as [|n]; [|discriminate].
+    pose proof (chunk_length (prodn s) 0 (adata a)) as L.
+    destruct (chunk (prodn s) 0 (adata a)); [reflexivity|discriminate].
+  - unfold p_rise in R. destruct (negb (sortable a)); try discriminate.
+    destruct (ash a) as [|n s]; try discriminate. inversion R; subst u.
+    unfold p_first in F. cbn [ash] in F. destruct n; discriminate.
+Qed.
+
+(** rule 6: (Rise, Last) -> LastMaxIndex *)
+Theorem rule_rise_last : prule_sound (tuple_rule [PP 34; PP 32] [nLastMaxIndex]).
+Proof.
+  apply tuple2_sound. intros st out W H.
+  unfold prim_sem in *.
+  rewrite (transposeN_small 34) in H by (vm_compute; reflexivity).
+  rewrite (transposeN_small 105) by (vm_compute; reflexivity).
+  destruct st as [|a r]; cbn in H; try discriminate.
+  destruct (p_rise a) as [u| |] eqn:E; cbn in H; try discriminate.
+  destruct (negb (wfb u && forallb wfb r)); try discriminate.
+  try (rewrite (transposeN_small 32) in H by (vm_compute; reflexivity)); cbn in H.
+  cbn. rewrite (rise_last_equiv a u E). exact H.
+Qed.
+
+(** rule 4: (Fall, Last) -> LastMinIndex *)
+Theorem rule_fall_last : prule_sound (tuple_rule [PP 35; PP 32] [nLastMinIndex]).
+Proof.
+  apply tuple2_sound. intros st out W H.
+  unfold prim_sem in *.
+  rewrite (transposeN_small 35) in H by (vm_compute; reflexivity).
+  rewrite (transposeN_small 103) by (vm_compute; reflexivity).
+  destruct st as [|a r]; cbn in H; try discriminate.
+  destruct (p_fall a) as [u| |] eqn:E; cbn in H; try discriminate.
+  destruct (negb (wfb u && forallb wfb r)); try discriminate.
+  try (rewrite (transposeN_small 32) in H by (vm_compute; reflexivity)); cbn in H.
+  cbn. rewrite (fall_last_equiv a u E). exact H.
 Qed.
 
 (** rule 14: (Deduplicate, Len) -> CountUnique *)
@@ -519,13 +761,13 @@ Qed.
 
 (* ------------------------------------------------------------------ the proved set *)
 
-Definition proved : list rname := [RTuple 1; RTuple 2; RTuple 3; RTuple 5; RTuple 14; RTranspose; RPopConst].
+Definition proved : list rname := [RTuple 1; RTuple 2; RTuple 3; RTuple 4; RTuple 5; RTuple 6; RTuple 14; RTranspose; RPopConst].
 (** rules of the current table that are NOT proved here (decided by the differential search only):
-    PseudoIsPrime, last-of-grade rules, where rules, member-of-range rules, RandomRow, the sort rules,
+    PseudoIsPrime, where rules, member-of-range rules, RandomRow, the sort rules,
     ReplaceRand, the power rules (no reference semantics of power), the complex rules, SquareAbs, NegAbs,
     and every hand-written Optimization except TransposeOpt and PopConst *)
 Definition listed_unproved : list rname :=
-  [RTuple 0; RTuple 4; RTuple 6; RTuple 7; RTuple 8; RTuple 9; RTuple 10; RTuple 11; RTuple 12; RTuple 13;
+  [RTuple 0; RTuple 7; RTuple 8; RTuple 9; RTuple 10; RTuple 11; RTuple 12; RTuple 13;
    RTuple 15; RTuple 16; RTuple 17; RTuple 18; RTuple 19; RTuple 20; RTuple 21; RTuple 22; RTuple 23; RTuple 24;
    RTuple 25; RTuple 26; RTuple 27; RTuple 28; RTuple 29; RTuple 30;
    RByToDup; RRowsFlip; RInlineCustomInverse; RReduceTable; RReduceDepth; RReduceContent;
@@ -547,7 +789,7 @@ Proof.
   unfold unsorted_opts, tuple_opts, struct_opts in Hi. cbn in Hi.
   repeat (destruct Hi as [<-|Hi];
           [cbn in Hp |- *;
-           first [ apply mar_sound; first [ exact rule_reverse_first | exact rule_reverse_last | exact rule_rise_first
+           first [ apply mar_sound; first [ exact rule_reverse_first | exact rule_reverse_last | exact rule_rise_first | exact rule_rise_last | exact rule_fall_last
                                           | exact rule_fall_first | exact rule_dedup_len | exact rule_transpose
                                           | exact rule_pop_const ]
                  | exfalso; repeat (destruct Hp as [Hp|Hp]; [discriminate Hp|]); exact Hp ]|]).
@@ -596,14 +838,26 @@ Proof.
     discriminate.
 Qed.
 
-(* ------------------------------------------------------------------ the open finding, in the model *)
+(* ------------------------------------------------------------------ records of repaired defects *)
 
-(** `first rise` of an empty list fails in the reference semantics while the fused primitive, as
-    implemented, gives 0: the rewrite turns a failing program into a succeeding one (allowed by the
-    success-implies-success law, but it changes more than speed) *)
-Theorem first_rise_empty_diverges :
+(** before fix commit 2d75a21: `first rise` of an empty list fails in the reference semantics while
+    the fused primitive gave 0 (the rewrite turned a failing program into a succeeding one) *)
+Theorem first_rise_empty_refuted_pre :
+  let a := Arr TNum [0%nat] [] in
+  (u <- p_rise a ;; p_first None u) = Err /\ p_first_index false row_le a = Ok (num 0).
+Proof. vm_compute. auto. Qed.
+(** ... and in the current model both fail *)
+Theorem first_rise_empty_agrees :
   let st := [Arr TNum [0%nat] []] in
-  run [nRise; nFirst] st = Err /\ run [nFirstMinIndex] st = Ok [num 0].
+  run [nRise; nFirst] st = Err /\ run [nFirstMinIndex] st = Err.
+Proof. vm_compute. auto. Qed.
+
+(** before fix commit 1f3e8d8: `last rise` of [1 2] (a list marked as sorted ascending) is 1, the
+    fused LastMaxIndex gave 0; the current model gives 1 *)
+Theorem last_rise_sorted_refuted_pre :
+  let a := Arr TNum [2%nat] [ENum 1; ENum 2] in
+  (u <- p_rise a ;; p_last None u) = Ok (num 1) /\ p_last_max_index_pre true a = Ok (num 0) /\
+  p_last_index row_le a = Ok (num 1).
 Proof. vm_compute. auto. Qed.
 
 (** non-vacuity: the rules fire and the runs succeed on a 3x2 array *)
